@@ -614,7 +614,111 @@ def c13_programs(tier, rng):
         ('empty outputs', {'mappings': [{'from': 'CAPSLOCK', 'to': []}, {'from': ['CAPSLOCK', 'Q'], 'to': ['ESC'], 'repeat': 'DISABLED', 'absorbing': ['CAPSLOCK']}]}),
     ]
     P += C
+    P += c13_random_programs(rng, 120 if quick else 1200)
     return P
+
+
+def c13_random_programs(rng, n):
+    """random well-formed layout programs over every shorthand (alias definitions with 1-3 definitions, singles, rows,
+    repeat-only entries of every mode aimed at single, row-generated and unmapped triggers) in a random source order:
+    an alias may be defined after its first use, a repeat-only entry may precede its target. Only programs that are valid by
+    construction (no key twice in a list, absorbed keys and output/repeat aliases taken from the trigger) are produced."""
+    sp = lambda keys: {'Special': {'keys': keys, 'delay_ms': rng.choice([180, 0, 250]), 'interval_ms': rng.choice([30, 1, 45])}}
+    out = []
+    alias_pool = {'@shift': [['LEFTSHIFT'], ['RIGHTSHIFT']], '@symbol': [['CAPSLOCK'], ['RIGHTALT']], '@c': [['LEFTCTRL'], ['RIGHTCTRL'], ['TAB']]}
+    keys = ['J', 'K', 'L', 'SPACE', 'F5', 'X', 'ENTER', 'N']
+    outs = ['DOWN', 'UP', 'LEFT', 'RIGHT', 'BACKSPACE', 'ESC', 'F13', 'PAGEDOWN', 'HOME']
+    rowletters = ['ao', 'h?k', 'a B', '!', 'x1', '?', 'Qq', 'n-']
+    for t in range(n):
+        used = rng.sample(sorted(alias_pool), rng.choice([1, 2, 2, 3]))
+        defs, adefs = [], {}
+        for a in used:
+            ds = alias_pool[a][:rng.choice([1, 2, 2, len(alias_pool[a])])]
+            adefs[a] = ds
+            for d_ in ds:
+                defs.append({'from': d_[0] if rng.random() < .5 else list(d_), 'to': a})
+        alias_keys = set(k for ds in adefs.values() for d_ in ds for k in d_)
+        plain = [m for m in ['LEFTALT', 'LEFTMETA', 'LEFTCTRL', 'CAPSLOCK'] if m not in alias_keys]
+
+        def pick_mods():
+            mods = rng.sample(used, min(len(used), rng.choice([0, 1, 1, 2])))
+            if plain and rng.random() < .3:
+                mods.insert(rng.randrange(len(mods) + 1), rng.choice(plain))
+            return mods
+
+        def rep_single(mods):
+            r = rng.random()
+            if r < .2:
+                return rng.choice(['Disabled', 'disabled', 'Normal', 'normal'])
+            if r < .5:
+                al = [a for a in mods if a.startswith('@') and rng.random() < .5]
+                k_ = [rng.choice(['F21', 'F22', 'C'])] if (al or rng.random() < .85) else []      # an alias is never the last key
+                ks = al + k_
+                return sp(ks if len(ks) != 1 or rng.random() < .5 else ks[0])
+            return None
+        items, triggers = [], []
+        for _ in range(rng.choice([1, 2, 2, 3])):
+            mods = pick_mods()
+            k = rng.choice(keys)
+            tomods = [m for m in mods if rng.random() < .4]
+            to = tomods + [rng.choice(outs)] if rng.random() < .9 else []
+            m = {'from': (mods + [k]) if (mods or rng.random() < .5) else k, 'to': to if (len(to) != 1 or rng.random() < .5) else to[0]}
+            r = rep_single(mods)
+            if r is not None:
+                m['repeat'] = r
+            ab = [x for x in mods if rng.random() < .5]
+            if ab and rng.random() < .4:
+                m['absorbing'] = ab if len(ab) > 1 or rng.random() < .5 else ab[0]
+            items.append(m)
+            triggers.append((mods, k))
+        if rng.random() < .6:
+            row = rng.choice(['`', '1', 'Q', 'A', 'Z', 'q', 'a'])
+            mods = pick_mods()
+            letters = rng.choice(rowletters)
+            tomods = [m for m in mods if rng.random() < .4]
+            to = (tomods + [{'letters': letters}]) if (tomods or rng.random() < .5) else {'letters': letters}
+            m = {'from': (mods + [{'row': row}]) if (mods or rng.random() < .5) else {'row': row}, 'to': to}
+            r = rng.random()
+            if r < .2:
+                m['repeat'] = rng.choice(['Disabled', 'disabled'])
+            elif r < .4:
+                al = [a for a in mods if a.startswith('@') and rng.random() < .5]
+                rl = rng.choice(['a', 'A', '?', ' a'])[:len(letters)]
+                m['repeat'] = sp(al + [{'letters': rl}] if al or rng.random() < .5 else {'letters': rl})
+            ab = [x for x in mods if rng.random() < .5]
+            if ab and rng.random() < .4:
+                m['absorbing'] = ab
+            items.append(m)
+            rk = US_ROWS[row.upper()]
+            triggers.append((mods, rk[rng.randrange(min(len(letters), len(rk)))]))
+        ronly = []
+        for _ in range(rng.choice([0, 1, 1, 2])):
+            r = rng.random()
+            if r < .7 and triggers:
+                mods, k = rng.choice(triggers)
+                mods = list(mods)
+                rng.shuffle(mods)
+            else:
+                mods = pick_mods()
+                k = rng.choice(['F7', 'F8', 'M'])
+            rr = rng.random()
+            if rr < .3:
+                rep = rng.choice(['Normal', 'normal'])
+            elif rr < .6:
+                rep = rng.choice(['Disabled', 'disabled'])
+            else:
+                al = [a for a in mods if a.startswith('@') and rng.random() < .5]
+                rep = sp(al + [rng.choice(['F23', 'F24'])])
+            ronly.append({'from': (mods + [k]) if (mods or rng.random() < .5) else k, 'repeat': rep})
+        body = items + ronly
+        if rng.random() < .5:
+            allm = defs + body
+            rng.shuffle(allm)
+        else:
+            rng.shuffle(body)
+            allm = defs + body
+        out.append(('random program %d' % t, {'mappings': allm}))
+    return out
 
 
 def c13_spellings():
